@@ -1430,6 +1430,10 @@ class Simulation:
 
         """
 
+        # Keep the current residual and gradient; they are restored below.
+        residual = self.data.residual.data.copy()
+        gradient = self._gradient
+
         # Replace residual by provided vector
         # (division by weight is undone in gradient).
         with np.errstate(invalid='ignore'):  # (For division by cplx-NaN.)
@@ -1441,8 +1445,19 @@ class Simulation:
             if hasattr(self, name):
                 delattr(self, name)
 
-        # Return gradient from weighted residual `vector`.
-        return self.gradient
+        # Compute gradient from weighted residual `vector`.
+        try:
+            jtvec = self.gradient
+        finally:
+            # Restore residual and gradient of the misfit; remove the
+            # back-propagated fields, as they belong to `vector`.
+            self.data.residual[...] = residual
+            self._gradient = gradient
+            for name in ['_dict_bfield', '_dict_bfield_info']:
+                if hasattr(self, name):
+                    delattr(self, name)
+
+        return jtvec
 
     # UTILS
     @property
